@@ -332,7 +332,8 @@ def JOBS(tier):
     pairs = [('track.append', 'msg.time='), ('tracks.append', 'track.append'), ('add_track', 'track.append'),
              ('msg.time=', 'ticks_per_beat='), ('del tracks[i]', 'tracks.append'), ('tempo=', 'track.insert')]
     if tier != 'quick':
-        pairs = [(a, b) for a in EDITS for b in EDITS]
+        base = [e for e in EDITS if e not in ('track[*]=copy', 'track.name=2')]     # (these two appear in the histories below)
+        pairs = [(a, b) for a in base for b in base]
     for e in ('track.append', 'track.insert', 'track.pop', 'msg.time=', 'track[i]='):
         for pre in ('iterate', 'length', 'save', 'merged_track'):
             for post in ('iterate', 'save'):
